@@ -107,7 +107,9 @@ fn script_for(term: &mut Term, frame: &[u8], plan: &Value) -> (Vec<Vec<u8>>, Str
     let o = plan["o"].as_str().unwrap_or("ok").to_string();
     let code = plan.get("code").and_then(|c| c.as_u64()).unwrap_or(0) as u8;
     let mut frames: Vec<Vec<u8>> = vec![];
-    for _ in 0..plan.get("inter").and_then(|c| c.as_u64()).unwrap_or(0) {
+    // intermediate statuses in front of the answer - not for the pending query, whose regular answer is a single 06 1E packet
+    let is_query = cf == (0x06, 0x23) && frame.windows(3).any(|w| w == [0x87, 0xff, 0xff]);
+    for _ in 0..plan.get("inter").and_then(|c| c.as_u64()).filter(|_| !is_query).unwrap_or(0) {
         frames.push(intermediate());
     }
     for _ in 0..plan.get("lines").and_then(|c| c.as_u64()).unwrap_or(0) {
@@ -156,7 +158,7 @@ fn script_for(term: &mut Term, frame: &[u8], plan: &Value) -> (Vec<Vec<u8>>, Str
                 "noreceipt" => {
                     if plan.get("open").and_then(|b| b.as_bool()).unwrap_or(false) {
                         let r = term.next_receipt;
-                        term.next_receipt += 1;
+                        term.next_receipt = if r >= 9999 { 1 } else { r + 1 };
                         let amt = req.as_ref().and_then(|r| r.amount).unwrap_or(0) as u128;
                         term.ledger.push((r, amt, vec![]));
                     }
@@ -164,8 +166,8 @@ fn script_for(term: &mut Term, frame: &[u8], plan: &Value) -> (Vec<Vec<u8>>, Str
                     frames.push(completion());
                 }
                 _ => {
-                    let r = plan.get("receipt").and_then(|c| c.as_u64()).unwrap_or(term.next_receipt);
-                    term.next_receipt = term.next_receipt.max(r + 1);
+                    let r = plan.get("receipt").and_then(|c| c.as_u64()).unwrap_or(term.next_receipt).clamp(1, 9999);
+                    term.next_receipt = if r >= 9999 { 1 } else { r + 1 };
                     let amt = req.as_ref().and_then(|r| r.amount).unwrap_or(0) as u128;
                     let tok = req.as_ref().and_then(|r| r.tlv.as_ref()).and_then(|t| t.bmp_data.as_ref()).map(|b| b.bmp_data.clone().into_bytes()).unwrap_or_default();
                     term.ledger.push((r, amt, tok));
@@ -360,7 +362,7 @@ fn send_next(term: &mut Term, c: &mut ConnState, cst: &Arc<Mutex<ConnState>>) {
         term.log(json!({"e": "tx", "conn": id, "ex": ex, "pos": pos, "kind": kind, "code": code, "raw": frame, "after_ms": delay}));
         tokio::spawn(async move {
             tokio::time::sleep(std::time::Duration::from_millis(delay)).await;
-            let mut c = cst2.lock().unwrap();
+            let mut c = cst2.lock().unwrap_or_else(|e| e.into_inner());
             if !c.dropped {
                 c.rbuf.extend(frame);
                 wake(&mut c);
@@ -388,8 +390,8 @@ fn cmd_kind(frame: &[u8]) -> &'static str {
 
 impl AsyncWrite for Conn {
     fn poll_write(self: Pin<&mut Self>, _: &mut Context<'_>, buf: &[u8]) -> Poll<std::io::Result<usize>> {
-        let mut term = self.term.lock().unwrap();
-        let mut c = self.st.lock().unwrap();
+        let mut term = self.term.lock().unwrap_or_else(|e| e.into_inner());
+        let mut c = self.st.lock().unwrap_or_else(|e| e.into_inner());
         c.wbuf.extend_from_slice(buf);
         loop {
             if c.wbuf.len() < 3 {
@@ -459,7 +461,7 @@ impl AsyncWrite for Conn {
 
 impl AsyncRead for Conn {
     fn poll_read(self: Pin<&mut Self>, cx: &mut Context<'_>, buf: &mut ReadBuf<'_>) -> Poll<std::io::Result<()>> {
-        let mut c = self.st.lock().unwrap();
+        let mut c = self.st.lock().unwrap_or_else(|e| e.into_inner());
         if c.rbuf.is_empty() {
             if c.closed {
                 return Poll::Ready(Ok(())); // EOF
@@ -479,13 +481,12 @@ impl AsyncRead for Conn {
 impl Drop for Conn {
     fn drop(&mut self) {
         let id = {
-            let mut c = self.st.lock().unwrap();
+            let mut c = self.st.lock().unwrap_or_else(|e| e.into_inner());
             c.dropped = true;
             c.id
         };
-        if let Ok(mut t) = self.term.lock() {
-            t.log(json!({"e": "close", "conn": id}));
-        }
+        let mut t = self.term.lock().unwrap_or_else(|e| e.into_inner());
+        t.log(json!({"e": "close", "conn": id}));
     }
 }
 
@@ -497,17 +498,17 @@ impl Connector for SimConnector {
     fn connect(&self, _addr: std::net::SocketAddr) -> ConnectFuture {
         let term = self.term.clone();
         Box::pin(async move {
-            let hs = { term.lock().unwrap().handshake.front().cloned().unwrap_or(json!({})) };
+            let hs = { term.lock().unwrap_or_else(|e| e.into_inner()).handshake.front().cloned().unwrap_or(json!({})) };
             match hs.get("connect").and_then(|c| c.as_str()).unwrap_or("ok") {
                 "refused" => {
-                    let mut t = term.lock().unwrap();
+                    let mut t = term.lock().unwrap_or_else(|e| e.into_inner());
                     t.handshake.pop_front();
                     t.log(json!({"e": "connect_refused"}));
                     Err(std::io::Error::new(std::io::ErrorKind::ConnectionRefused, "refused"))
                 }
                 "stall" => {
                     {
-                        let mut t = term.lock().unwrap();
+                        let mut t = term.lock().unwrap_or_else(|e| e.into_inner());
                         t.handshake.pop_front();
                         t.log(json!({"e": "connect_stall"}));
                     }
@@ -515,7 +516,7 @@ impl Connector for SimConnector {
                     unreachable!()
                 }
                 _ => {
-                    let mut t = term.lock().unwrap();
+                    let mut t = term.lock().unwrap_or_else(|e| e.into_inner());
                     t.next_conn += 1;
                     let id = t.next_conn;
                     let st = Arc::new(Mutex::new(ConnState { id, ..Default::default() }));
@@ -569,7 +570,7 @@ fn make_config(c: &Value) -> Config {
 async fn guarded_call<T, F: std::future::Future<Output = anyhow::Result<T>>>(term: &Shared, op: &str, f: F, show: impl Fn(&T) -> Value) -> bool {
     use futures::FutureExt;
     let r = tokio::time::timeout(std::time::Duration::from_secs(86400), std::panic::AssertUnwindSafe(f).catch_unwind()).await;
-    let mut t = term.lock().unwrap();
+    let mut t = term.lock().unwrap_or_else(|e| e.into_inner());
     match r {
         Err(_) => {
             t.log(json!({"e": "hang", "op": op}));
@@ -622,15 +623,21 @@ pub fn run_scenario(sc: &Value) -> Value {
         let mut feig: Option<Feig> = None;
         for call in calls {
             let op = call["op"].as_str().unwrap_or("");
-            let token: String = String::from_utf8_lossy(&bytes_of(call.get("token").unwrap_or(&json!([])))).into_owned();
+            // the token is given as CP437 bytes; the string handed to the client is their CP437 decoding
+            let token: String = {
+                use zvt::encoding::Encoding;
+                let b = bytes_of(call.get("token").unwrap_or(&json!([])));
+                b.iter().map(|x| if *x == 0 { "\0".to_string() } else {
+                    <zvt::encoding::Default as Encoding<String>>::decode(&[*x]).map(|r| r.0).unwrap_or_default() }).collect()
+            };
             {
-                let mut t = term.lock().unwrap();
+                let mut t = term.lock().unwrap_or_else(|e| e.into_inner());
                 t.log(json!({"e": "call", "op": op, "token": call.get("token").cloned().unwrap_or(json!([])), "amount": call.get("amount").cloned().unwrap_or(json!([]))}));
             }
             if op == "new" {
                 use futures::FutureExt;
                 let r = tokio::time::timeout(std::time::Duration::from_secs(86400), std::panic::AssertUnwindSafe(Feig::new(config.clone())).catch_unwind()).await;
-                let mut t = term.lock().unwrap();
+                let mut t = term.lock().unwrap_or_else(|e| e.into_inner());
                 match r {
                     Err(_) => { t.log(json!({"e": "hang", "op": op})); break; }
                     Ok(Err(_)) => { t.log(json!({"e": "panic", "op": op, "text": ""})); break; }
@@ -645,19 +652,19 @@ pub fn run_scenario(sc: &Value) -> Value {
                 let mut f = None;
                 {
                     let saved: (VecDeque<Value>, VecDeque<Value>, usize) = {
-                        let mut t = term.lock().unwrap();
+                        let mut t = term.lock().unwrap_or_else(|e| e.into_inner());
                         let s = (std::mem::take(&mut t.plan), std::mem::take(&mut t.handshake), t.events.len());
                         s
                     };
                     if sc.get("start").and_then(|s| s.as_str()) == Some("disconnected") {
                         // the terminal closes every exchange during construction: the client ends up without a connection
-                        term.lock().unwrap().default_plan = json!({"o": "ok", "fault": {"pos": 1, "kind": "close"}});
+                        term.lock().unwrap_or_else(|e| e.into_inner()).default_plan = json!({"o": "ok", "fault": {"pos": 1, "kind": "close"}});
                     }
                     if let Ok(x) = Feig::new(config.clone()).await {
                         f = Some(x);
                     }
-                    term.lock().unwrap().default_plan = sc["plan"].get("default").cloned().unwrap_or(json!({"o": "ok"}));
-                    let mut t = term.lock().unwrap();
+                    term.lock().unwrap_or_else(|e| e.into_inner()).default_plan = sc["plan"].get("default").cloned().unwrap_or(json!({"o": "ok"}));
+                    let mut t = term.lock().unwrap_or_else(|e| e.into_inner());
                     t.plan = saved.0;
                     t.handshake = saved.1;
                     t.events.truncate(saved.2);
@@ -686,7 +693,7 @@ pub fn run_scenario(sc: &Value) -> Value {
                 }).await,
                 "configure" => guarded_call(&term, op, f.configure(), |_| json!({})).await,
                 other => {
-                    term.lock().unwrap().log(json!({"e": "harness-error", "text": format!("unknown op {other}")}));
+                    term.lock().unwrap_or_else(|e| e.into_inner()).log(json!({"e": "harness-error", "text": format!("unknown op {other}")}));
                     false
                 }
             };
@@ -695,7 +702,7 @@ pub fn run_scenario(sc: &Value) -> Value {
             }
         }
         drop(feig);
-        let t = term.lock().unwrap();
+        let t = term.lock().unwrap_or_else(|e| e.into_inner());
         t.events.clone()
     });
     let mut out = sc.as_object().cloned().unwrap_or_default();
